@@ -34,7 +34,7 @@ NOT PROVED, and not stated as theorems anywhere in this development:
 * BILINEARITY `e([a]P,[b]Q) = e(P,Q)^(ab)`;
 * NON-DEGENERACY, i.e. the ONLY-IF direction of "equals 1 exactly when P or Q is the identity" (for
   P ∈ G1, Q ∈ G2 of order r);
-* agreement of the Miller loop (the line coefficients of `doubling_step`/`addition_step` on the twist,
+* (NOW PROVED in PP/Props/C03Lines.lean: the Miller loop is the textbook tangent/chord evaluation) agreement of the Miller loop (the line coefficients of `doubling_step`/`addition_step` on the twist,
   evaluated through `ell`) with a textbook definition of the Miller function `f_{|x|,Q}(P)` / the optimal
   ate pairing on every input.
 These need the theory of divisors / Weil reciprocity on the curve, which Mathlib does not provide; they
